@@ -12,14 +12,14 @@
 
 using namespace vrt;
 
-enum Kind { LEAF, GROUP, SPAWNER, PFOR, INVOKE, EXEC, ISOLATE, ENQ_FF };
+enum Kind { LEAF, GROUP, SPAWNER, PFOR, INVOKE, EXEC, ISOLATE, ENQ_FF, ISO2 };
 enum How { RUN, DEFER_RUN, RUN_AND_WAIT, ENQ_H };
-static const char* kind_name[] = { "leaf", "group", "spawner", "pfor", "invoke", "exec", "isolate", "enq_ff" };
+static const char* kind_name[] = { "leaf", "group", "spawner", "pfor", "invoke", "exec", "isolate", "enq_ff", "isolate-split" };
 
 struct Node {
     Kind kind = LEAF; int id = 0, lo = 0, hi = 0; std::vector<int> kids; std::vector<int> how;
     int work = 0; int part = 0; bool cancel_here = false; int canceller = -1; bool detached = false;
-    int grain = 1;
+    int grain = 1; int split = 0;   // ISO2: kids[0..split) go to the inner group, the rest to the outer one
 };
 
 struct Unit {
@@ -190,6 +190,29 @@ static void run_node(Scen& s, int id, tbb::task_group* g) {
         check_range(s, n.lo + 1, n.hi, ret, false, "isolate");
         break;
     }
+    case ISO2: {
+        // Work of an outer group is submitted from inside a nested isolated region and not waited for there; an inner group is
+        // submitted and waited for in the enclosing region. The owner's pool then holds tasks of two isolation tags out of order:
+        // while it waits for the inner group it has to skip the outer group's tasks (the "tasks omitted" paths of the ready pool).
+        tbb::task_group tgB;
+        size_t split = (size_t)n.split;
+        tbb::this_task_arena::isolate([&] {
+            tbb::task_group tgA;
+            size_t ia = 0, ib = split;
+            auto subA = [&] { tgA.run(UnitFn(&s, n.kids[ia++], &tgA)); };
+            auto subB = [&] { int c = n.kids[ib++]; tbb::this_task_arena::isolate([&] { tgB.run(UnitFn(&s, c, &tgB)); }); };
+            for (int h : n.how) { if (h == 0 && ia < split) subA(); else if (h != 0 && ib < n.kids.size()) subB(); }
+            while (ia < split) subA();
+            while (ib < n.kids.size()) subB();
+            tgA.wait();
+            uint64_t retA = stamp();
+            if (split > 0) check_range(s, n.kids[0], split < n.kids.size() ? n.kids[split] : n.hi, retA, false, "task_group::wait inside isolate (other isolation's tasks in the pool)");
+        });
+        tgB.wait();
+        uint64_t ret = stamp();
+        check_range(s, n.lo + 1, n.hi, ret, false, "task_group::wait after isolate-split");
+        break;
+    }
     case ENQ_FF: break; // body of a detached unit is a leaf
     }
     u.payload = (long)(id * 2654435761u + 17);
@@ -212,8 +235,11 @@ struct Gen {
         Kind k = LEAF;
         if (!leaf_only && depth < maxdepth && budget > 2) {
             unsigned x = (unsigned)r.below(100);
-            if (x < 30) k = LEAF; else if (x < 55) k = GROUP; else if (x < 63 && in_group) k = SPAWNER; else if (x < 80) k = PFOR;
-            else if (x < 88) k = INVOKE; else if (x < 93) k = EXEC; else if (x < 97) k = ISOLATE; else k = LEAF;
+            if (x < 27) k = LEAF; else if (x < 52) k = GROUP; else if (x < 60 && in_group) k = SPAWNER; else if (x < 77) k = PFOR;
+            else if (x < 85) k = INVOKE; else if (x < 90) k = EXEC; else if (x < 94) k = ISOLATE;
+            // isolate-split only where the current isolation is certainly "none" (not below isolate / execute / another split): its outer
+            // wait must be able to take the tasks tagged with the inner region, otherwise a one-slot arena would deadlock by construction
+            else if (!no_enq) k = ISO2; else k = LEAF;
         }
         s.nodes[id].kind = k;
         std::vector<int> kids, how;
@@ -242,6 +268,14 @@ struct Gen {
             break;
         }
         case INVOKE: { int f = 2 + (int)r.below(3); for (int i = 0; i < f; i++) kids.push_back(make(depth + 1, false, budget <= 0, no_enq)); break; }
+        case ISO2: {
+            int fa = (int)r.below(4), fb = 1 + (int)r.below(3);
+            for (int i = 0; i < fa; i++) kids.push_back(make(depth + 1, true, r.chance(3, 4), true));
+            s.nodes[id].split = (int)kids.size();
+            for (int i = 0; i < fb; i++) kids.push_back(make(depth + 1, true, r.chance(3, 4), true));
+            for (size_t i = 0; i < kids.size(); i++) how.push_back((int)r.below(2));     // submission order: 0 = next inner, 1 = next outer
+            break;
+        }
         case EXEC: case ISOLATE: { int f = 1 + (int)r.below(2); for (int i = 0; i < f; i++) kids.push_back(make(depth + 1, false, budget <= 0, true)); break; }
         default: break;
         }
@@ -334,6 +368,7 @@ int main(int argc, char** argv) {
                 for (int i = 0; i < s.nunits; i++) { int t = s.u[i].thread.load(); if (t < 0) continue; auto it = norm.find(t); if (it == norm.end()) it = norm.emplace(t, distinct++).first; h = mix(h, (uint64_t)s.nodes[i].kind * 64 + it->second); }
                 R.scenarios++;
                 R.stat("units", s.nunits);
+                { long iso2 = 0, omitted_waits = 0; for (auto& nd : s.nodes) if (nd.kind == ISO2) { iso2++; if (nd.split > 0) omitted_waits++; } if (iso2) { R.stat("isolate_split_constructs", iso2); R.stat("isolate_split_inner_waits_with_foreign_tasks_in_pool", omitted_waits); } }
                 if (distinct >= 2) { R.nontrivial++; R.signature(h); }
                 if (s.any_cancel) R.stat("scenarios_with_cancel");
                 if (s.fails.load()) {
